@@ -167,12 +167,24 @@ class FakeS3:
         fake = self
 
         class P:
-            def paginate(self, Bucket, Prefix="", **kw):
-                token = None
+            def paginate(self, Bucket, Prefix="", PaginationConfig=None, **kw):
+                # botocore semantics: PageSize = keys per request (capped by the store), MaxItems = TOTAL keys returned
+                cfg = PaginationConfig or {}
+                max_items = cfg.get("MaxItems")
+                page_size = cfg.get("PageSize")
+                token, sent = cfg.get("StartingToken"), 0
                 while True:
-                    r = fake.list_objects_v2(Bucket=Bucket, Prefix=Prefix, ContinuationToken=token)
+                    extra = {"MaxKeys": int(page_size)} if page_size else {}
+                    r = fake.list_objects_v2(Bucket=Bucket, Prefix=Prefix, ContinuationToken=token, **extra)
+                    if max_items is not None and "Contents" in r:
+                        room = int(max_items) - sent
+                        if len(r["Contents"]) > room:
+                            r = dict(r, Contents=r["Contents"][:max(room, 0)], KeyCount=max(room, 0))
+                            yield r
+                            return
+                    sent += len(r.get("Contents", []))
                     yield r
-                    if not r.get("IsTruncated"):
+                    if not r.get("IsTruncated") or (max_items is not None and sent >= int(max_items)):
                         return
                     token = r["NextContinuationToken"]
 
